@@ -135,6 +135,28 @@ func init() {
 			}
 			want = append(want, hx(v))
 		}
+		// failing reader with a known INTENDED stream (third argument): what was yielded before the failure must be a prefix
+		// of the values of the intended stream — in particular a number cut by the failure must not be yielded
+		if len(a) > 2 && a[1] != "eof" {
+			full := unhx(a[2])
+			fd := stdjson.NewDecoder(bytes.NewReader(full))
+			var wantFull []string
+			for {
+				var v stdjson.RawMessage
+				if err := fd.Decode(&v); err != nil {
+					break
+				}
+				wantFull = append(wantFull, hx(v))
+			}
+			k := len(out) - 1
+			okp := k <= len(wantFull)
+			for i := 0; i < k && okp; i++ {
+				okp = out[i] == wantFull[i]
+			}
+			if !okp {
+				return impl, "values-before-the-failure-are-not-a-prefix-of-the-intended-stream(" + strings.Join(wantFull, ",") + ")", ""
+			}
+		}
 		clean := a[1] == "eof"
 		for _, e := range evs {
 			if e.withErr {
@@ -305,9 +327,22 @@ func runC11(h *H) {
 		ch := h.chunk(all, 4)
 		h.Do("json.stream", evString(ch, len(ch)-1), "eof")
 		cut := h.Intn(len(ch) + 1)
-		h.Do("json.stream", evString(ch[:cut], -1), "other")
+		h.Do("json.stream", evString(ch[:cut], -1), "other", hx(all))
 		if cut > 0 {
-			h.Do("json.stream", evString(ch[:cut], cut-1), "other")
+			h.Do("json.stream", evString(ch[:cut], cut-1), "other", hx(all))
+		}
+		// a failure in the middle of a value (numbers included): cut the byte stream at a random offset
+		if len(all) > 1 {
+			k := 1 + h.Intn(len(all)-1)
+			h.Do("json.stream", "d:"+hx(all[:k]), "other", hx(all))
+		}
+	}
+	// numbers cut by a failing reader at every offset
+	for _, s := range []string{`12345 678`, `{"a":1} 12345`, `[1,2] -1.5e10 7`, `1`, `10 20 30`} {
+		b := []byte(s)
+		for k := 1; k < len(b); k++ {
+			h.Do("json.stream", "d:"+hx(b[:k]), "other", hx(b))
+			h.Do("json.stream", "e:"+hx(b[:k]), "other", hx(b))
 		}
 	}
 	// short streams: terminal error / EOF at every offset, 1-byte reads
